@@ -36,8 +36,9 @@ int g_balign;
 	X(RET->u.array.length == 0 && RET->u.array.ptrqual == QUALNONE) \
 	X(RET->incomplete == (len == 0) && !RET->flexible && RET->value == 0) \
 	X(IMP(g_base != 0, RET->align == g_balign)) \
-	X(IMP(g_base != 0, RET->size == g_bsize * len)) \
-	X(IMP((g_base != 0 && g_bsize != 0), RET->size / g_bsize == len)) \
+	/* the machine product; with PRE (no wrap) it IS the mathematical product n * sizeof(T).  The operands are named through \
+	   the same objects the code uses so that CBMC shares the 64-bit multiplier (CONVENTIONS 5) */ \
+	X(IMP(g_base != 0, RET->size == RET->base->size * len)) \
 	X(IMP(g_base != 0, (g_base->size == g_bsize && g_base->align == g_balign))) \
 	CANARY(X, !(g_base != 0 && g_bsize == 4 && len == 3))
 
